@@ -301,6 +301,8 @@ pub fn run_jobs_into(ck: &mut Check, jobs: Vec<Job>, blocked_is_violation: bool)
     let mut by_devs: std::collections::BTreeMap<usize, u64> = Default::default();
     let mut kinds: std::collections::BTreeMap<u8, u64> = Default::default();
     let mut min_bound = usize::MAX;
+    let mut max_bound = 0usize;
+    let mut by_bound: std::collections::BTreeMap<usize, u64> = Default::default();
     for r in &rep.results {
         execs += r.execs;
         cps += r.choice_points;
@@ -310,6 +312,8 @@ pub fn run_jobs_into(ck: &mut Check, jobs: Vec<Job>, blocked_is_violation: bool)
             capped += 1;
         }
         min_bound = min_bound.min(r.bound_completed);
+        max_bound = max_bound.max(r.bound_completed);
+        *by_bound.entry(r.bound_completed).or_insert(0) += 1;
         max_trace = max_trace.max(r.max_trace);
         for (k, v) in &r.execs_by_devs {
             *by_devs.entry(*k).or_insert(0) += v;
@@ -375,6 +379,11 @@ pub fn run_jobs_into(ck: &mut Check, jobs: Vec<Job>, blocked_is_violation: bool)
     );
     if min_bound != usize::MAX {
         ck.cov("e3_deviation_bound_completed", min_bound as u64);
+        ck.cov("e3_deviation_bound_completed_max", max_bound as u64);
+        ck.cov(
+            "e3_scenarios_by_completed_deviation_bound",
+            json!(by_bound.iter().map(|(k, v)| (k.to_string(), *v)).collect::<std::collections::BTreeMap<_, _>>()),
+        );
     }
     rep
 }
